@@ -657,7 +657,7 @@ def run_integrity_component(seed, tier, name):
             continue
         for l in open(os.path.join(outdir, "integrity_%s.txt" % c)).read().splitlines():
             t = l.split()
-            if t[0] in ("FLIP", "FIELD", "SWAP", "ROUNDS", "ADAPT"):
+            if t[0] in ("FLIP", "FIELD", "SWAP", "ROUNDS", "ADAPT", "ADAPTB"):
                 d = dict(x.split("=", 1) for x in t[3:])
                 row = {"kind": t[0], "curve": c, "proof": int(t[2]), "first": d.pop("first")}
                 row.update({k: int(v) for k, v in d.items()})
